@@ -332,8 +332,6 @@ func ddp_string_string_verkettet [C12, C05]
   // ownership: str1 is left empty; its block lives on in the result or is released
   ensures str1.str.B == nil && str1.cap == 0
   ensures old(str1.str.B) != nil && ret.str.B != old(str1.str.B) ==> old(str1.str.B).$n == -1
-  // concatenating well-formed UTF-8 yields well-formed UTF-8
-  ensures old(validT(str1)) && old(validT(str2)) ==> validT(ret)
   // str2 is unchanged
   ensures str2.str == old(str2.str) && str2.cap == old(str2.cap) && wfStr(str2)
   ensures forall k int :: 0 <= k && k < str2.cap ==> byteAt(str2.str, k) == old(byteAt(str2.str, k))
